@@ -483,10 +483,18 @@ Definition sound_assignmentb (n : nat) (ps : list (nat * nat * Z)) (a : list (op
 Definition given_solver (f : N -> list N -> list (option nat)) : solver :=
   fun tag _thr n cols ps => let a := f tag cols in if sound_assignmentb n ps a then a else repeat None n.
 
-(* the association given by track NAMES (last absorbed detection), as read off the implementation's run *)
+(* the association given by track NAMES (last absorbed detection), as read off the implementation's run; a name that is
+   not a column of the call (the track is of another scene, expired, ...) becomes an out-of-range column, which no offered
+   pair mentions, so the association is rejected *)
 Definition given_by_name (hs : hints) : N -> list N -> list (option nat) :=
   fun tag cols => match alookup tag hs with
-                  | Some h => map (fun o : option N => match o with Some nm => index_of nm cols | None => None end) h
+                  | Some h => map (fun o : option N => match o with
+                                                       | Some nm => match index_of nm cols with
+                                                                    | Some j => Some j
+                                                                    | None => Some (length cols)
+                                                                    end
+                                                       | None => None
+                                                       end) h
                   | None => []
                   end.
 
